@@ -40,15 +40,16 @@ def run_demo(src, tree):
 
 
 def main():
-    pid, k = sys.argv[1].upper(), sys.argv[2]
+    srcname, k = sys.argv[1], sys.argv[2]
+    pid = srcname[:3].upper()           # e.g. C21b -> property C21, second batch
     notests = '--no-tests' in sys.argv
-    src = '/tmp/seed_out/%s' % pid
+    src = '/tmp/seed_out/%s' % srcname
     patch = os.path.join(src, 'patch%s.diff' % k)
     demo = os.path.join(src, 'demo%s.py' % k)
     if not os.path.exists(demo):
         demo = os.path.join(src, 'demo%s' % k)
     ensure_ref()
-    wt = '/tmp/try_%s_%s' % (pid, k)
+    wt = '/tmp/try_%s_%s' % (srcname, k)
     sh(['git', '-C', '/repo', 'worktree', 'remove', '--force', wt])
     shutil.rmtree(wt, ignore_errors=True)
     rc, out = sh(['git', '-C', '/repo', 'worktree', 'add', '--detach', wt])
@@ -76,7 +77,7 @@ def main():
             res = {}
 
             def part(name, paths):
-                td = '/tmp/seedtests_%s_%s_%s' % (pid, k, name)
+                td = '/tmp/seedtests_%s_%s_%s' % (srcname, k, name)
                 shutil.rmtree(td, ignore_errors=True)
                 os.makedirs(td)
                 env = dict(os.environ, PYTHONPATH=os.path.join(wt, 'src'), TMPDIR=td)
@@ -100,7 +101,7 @@ def main():
         meta['our_check'] = dict(cmd='VERIF_REPO=<tree with patch> ./check %s quick' % pid, exit=rc,
                                  seconds=round(time.time() - t0, 1), output=lines[:4])
         print('our check: exit %d  %s' % (rc, lines[:2]))
-        name = '%s-%s' % (pid, k)
+        name = '%s-%s' % (srcname, k)
         dst = os.path.join(VERIF, 'seeded', name)
         shutil.rmtree(dst, ignore_errors=True)
         os.makedirs(dst)
